@@ -22,6 +22,7 @@ REGISTRY = {
     "C09": "metric",
     "C12": "purity",
     "C16": "membership",
+    "C17": "measures",
 }
 
 
